@@ -56,16 +56,17 @@ GSum(s) == IF Len(s) = 0 THEN GZ ELSE GAdd(Head(s), GSum(Tail(s)))
 Dot(u, v) == GSum([k \in 1..Len(u) |-> GMul(u[k], v[k])])                       \* bilinear
 HDot(u, v) == GSum([k \in 1..Len(u) |-> GMul(GConj(u[k]), v[k])])               \* Hermitian <u, v>
 N2(u) == HDot(u, u)[1]                                                          \* squared Euclidean norm
-SeqScale(z, u) == [k \in 1..Len(u) |-> GMul(z, u[k])]
-SeqAdd(u, v) == [k \in 1..Len(u) |-> GAdd(u[k], v[k])]
-SeqSub(u, v) == [k \in 1..Len(u) |-> GSub(u[k], v[k])]
+\* TLCEval forces TLC to build the tuple once (its function constructors are otherwise re-evaluated at every access)
+SeqScale(z, u) == TLCEval([k \in 1..Len(u) |-> GMul(z, u[k])])
+SeqAdd(u, v) == TLCEval([k \in 1..Len(u) |-> GAdd(u[k], v[k])])
+SeqSub(u, v) == TLCEval([k \in 1..Len(u) |-> GSub(u[k], v[k])])
 SeqIsZero(u) == \A k \in 1..Len(u) : u[k] = GZ
 SeqIsConst(u) == \A k \in 1..Len(u) : u[k] = u[1]
 SeqGcd(u) == IF Len(u) = 0 THEN 0 ELSE GCD(GCD(Abs(Head(u)[1]), Abs(Head(u)[2])), SeqGcd(Tail(u)))
 \* primitive part (keeps the numbers of the elimination small)
 Prim(u) == LET g == SeqGcd(u) IN
-           IF g <= 1 THEN u ELSE [k \in 1..Len(u) |-> <<u[k][1] \div g, u[k][2] \div g>>]
-Ones(n) == [k \in 1..n |-> G(1)]
+           IF g <= 1 THEN u ELSE TLCEval([k \in 1..Len(u) |-> <<u[k][1] \div g, u[k][2] \div g>>])
+Ones(n) == TLCEval([k \in 1..n |-> G(1)])
 
 (* rank of a sequence of equally long rows by fraction-free elimination *)
 RECURSIVE RankFrom(_, _)
@@ -76,9 +77,9 @@ RankFrom(rows, col) ==
        IF piv = {} THEN RankFrom(rows, col + 1)
        ELSE LET p == CHOOSE i \in piv : \A j \in piv : i <= j
                 pr == rows[p]
-                rest == [j \in 1..(Len(rows) - 1) |-> rows[IF j < p THEN j ELSE j + 1]]
-                elim == [j \in 1..Len(rest) |->
-                           Prim([k \in 1..Len(pr) |-> GSub(GMul(pr[col], rest[j][k]), GMul(rest[j][col], pr[k]))])]
+                rest == TLCEval([j \in 1..(Len(rows) - 1) |-> rows[IF j < p THEN j ELSE j + 1]])
+                elim == TLCEval([j \in 1..Len(rest) |->
+                           Prim(TLCEval([k \in 1..Len(pr) |-> GSub(GMul(pr[col], rest[j][k]), GMul(rest[j][col], pr[k]))]))])
             IN 1 + RankFrom(elim, col + 1)
 Rank(rows) == RankFrom(rows, 1)
 InSpan(v, vs) == Rank(Append(vs, v)) = Rank(vs)
@@ -93,11 +94,11 @@ Basis(vs) == BasisFrom(vs, <<>>)
 (* determinants (Laplace expansion, n <= 4) and Gram determinants: the squared distance of v from the span of an
    independent family b is  GramDet(b + v) / GramDet(b)  -- an exact rational, independent of the elimination above *)
 RECURSIVE GDet(_)
-MinorOf(A, j) == [r \in 1..(Len(A) - 1) |-> [cc \in 1..(Len(A) - 1) |-> A[r + 1][IF cc < j THEN cc ELSE cc + 1]]]
+MinorOf(A, j) == TLCEval([r \in 1..(Len(A) - 1) |-> [cc \in 1..(Len(A) - 1) |-> A[r + 1][IF cc < j THEN cc ELSE cc + 1]]])
 GDet(A) == IF Len(A) = 0 THEN G(1)
            ELSE IF Len(A) = 1 THEN A[1][1]
            ELSE GSum([j \in 1..Len(A) |-> GMul(GScale(IF j % 2 = 1 THEN 1 ELSE -1, A[1][j]), GDet(MinorOf(A, j)))])
-Gram(us) == [i \in 1..Len(us) |-> [j \in 1..Len(us) |-> HDot(us[i], us[j])]]
+Gram(us) == TLCEval([i \in 1..Len(us) |-> [j \in 1..Len(us) |-> HDot(us[i], us[j])]])
 GramDet(us) == GDet(Gram(us))[1]
 Dist2ToSpan(v, vs) == LET b == Basis(vs) IN Q(GramDet(Append(b, v)), GramDet(b))          \* in lattice units
 
@@ -117,12 +118,12 @@ VNorm2(v) == Q(N2(v.ent), v.den * v.den)
 VRe(v) == Q(v.ent[1][1], v.den)                      \* real part of a scalar
 VIm(v) == Q(v.ent[1][2], v.den)
 VMul(z, zd, v) == V(v.shape, SeqScale(z, v.ent), v.den * zd)                 \* (z / zd) * v
-VAdd(a, b) == V(a.shape, [k \in 1..Len(a.ent) |-> GAdd(GScale(b.den, a.ent[k]), GScale(a.den, b.ent[k]))], a.den * b.den)
+VAdd(a, b) == V(a.shape, TLCEval([k \in 1..Len(a.ent) |-> GAdd(GScale(b.den, a.ent[k]), GScale(a.den, b.ent[k]))]), a.den * b.den)
 VReduce(v) == LET g == GCD(v.den, SeqGcd(v.ent)) IN
-              IF g <= 1 THEN v ELSE V(v.shape, [k \in 1..Len(v.ent) |-> <<v.ent[k][1] \div g, v.ent[k][2] \div g>>], v.den \div g)
+              IF g <= 1 THEN v ELSE V(v.shape, TLCEval([k \in 1..Len(v.ent) |-> <<v.ent[k][1] \div g, v.ent[k][2] \div g>>]), v.den \div g)
 \* matrix (shape <<r, c>>, row major) times a sequence of c entries
-MatVec(M, u) == [i \in 1..M.shape[1] |-> GSum([j \in 1..M.shape[2] |-> GMul(M.ent[(i - 1) * M.shape[2] + j], u[j])])]
-MatRows(M) == [i \in 1..M.shape[1] |-> [j \in 1..M.shape[2] |-> M.ent[(i - 1) * M.shape[2] + j]]]
+MatVec(M, u) == TLCEval([i \in 1..M.shape[1] |-> GSum([j \in 1..M.shape[2] |-> GMul(M.ent[(i - 1) * M.shape[2] + j], u[j])])])
+MatRows(M) == TLCEval([i \in 1..M.shape[1] |-> [j \in 1..M.shape[2] |-> M.ent[(i - 1) * M.shape[2] + j]]])
 
 (* ------------------------------------------------------------------ the five membership classes *)
 \* x = t (mod m), all real scalars, m # 0
@@ -133,7 +134,7 @@ Between(x, a, b) == VIsReal(x) /\ Leq(VRe(a), VRe(x)) /\ Leq(VRe(x), VRe(b))
 EigenResidual(M, lam, v) == SeqSub(SeqScale(G(lam.den), MatVec(M, v.ent)), SeqScale(GScale(M.den, lam.ent[1]), v.ent))
 Eigen(M, lam, v) == ~VIsZero(v) /\ SeqIsZero(EigenResidual(M, lam, v))
 \* v # 0 and v in the complex span of vs (a sequence of vector values)
-Ents(vs) == [i \in 1..Len(vs) |-> vs[i].ent]
+Ents(vs) == TLCEval([i \in 1..Len(vs) |-> vs[i].ent])
 SpanMember(v, vs) == ~VIsZero(v) /\ InSpan(v.ent, Ents(vs))
 \* v = u t with |u| = 1: read off u = v[k] / t[k] at a non-zero entry of t, then check both conditions exactly
 PhaseEq(v, t) == \E k \in 1..Len(t.ent) :
@@ -157,7 +158,7 @@ MatchingEntries(es, ss) == {k \in 1..Len(es[1].ent) :
 None == <<-1, 1>>
 Modes == {"equals", "proportional", "offset", "linear"}
 ZeroCompatible == {"equals", "offset"}
-DiffSeq(X, dx, Y, dy) == [k \in 1..Len(X) |-> GSub(GScale(dy, X[k]), GScale(dx, Y[k]))]        \* (X/dx - Y/dy) dx dy
+DiffSeq(X, dx, Y, dy) == TLCEval([k \in 1..Len(X) |-> GSub(GScale(dy, X[k]), GScale(dx, Y[k]))])        \* (X/dx - Y/dy) dx dy
 RelEq(X, dx, Y, dy) == SeqIsZero(DiffSeq(X, dx, Y, dy))
 RelProp(X, Y) == /\ \A i, j \in 1..Len(X) : GMul(X[i], Y[j]) = GMul(X[j], Y[i])
                  /\ SeqIsZero(Y) => SeqIsZero(X)
@@ -276,26 +277,47 @@ Relation(c) ==
   ELSE IF Allowed(c) = {Grade(Zero)} THEN "nonmember"
   ELSE "partial"
 
+(* ------------------------------------------------------------------ overflow-aware comparison of non-negative rationals *)
+RECURSIVE CmpFrac(_, _, _, _)
+\* sign of a/b - c/d for a, c >= 0 and b, d > 0 (continued fractions: no product of a numerator with a denominator)
+CmpFrac(a, b, cc, d) ==
+  LET qa == a \div b   qc == cc \div d   ra == a % b   rc == cc % d IN
+  IF qa < qc THEN -1 ELSE IF qa > qc THEN 1
+  ELSE IF ra = 0 /\ rc = 0 THEN 0
+  ELSE IF ra = 0 THEN -1
+  ELSE IF rc = 0 THEN 1
+  ELSE 0 - CmpFrac(b, ra, d, rc)
+SLeq(x, y) == CmpFrac(x[1], x[2], y[1], y[2]) <= 0
+SMul(a, b) == IF a[1] = 0 \/ b[1] = 0 THEN Zero
+              ELSE LET g1 == GCD(Abs(a[1]), b[2])   g2 == GCD(Abs(b[1]), a[2])
+                   IN <<(a[1] \div g1) * (b[1] \div g2), (a[2] \div g2) * (b[2] \div g1)>>
+
 (* ------------------------------------------------------------------ guard band
    Bound(c, mag2) = (1000 * tolerance radius)^2 where the radius is 1e-4 (abs) or 1e-5 * magnitude (pct).          *)
-Bound(c, mag2) == IF c.tol = "abs" THEN <<1, 100>> ELSE IF c.tol = "pct" THEN Mul(mag2, <<1, 10000>>) ELSE Zero
-Far(c, gap2, mag2) == Leq(Bound(c, mag2), gap2) /\ (c.tol # "zero" => gap2[1] > 0)
+Bound(c, mag2) == IF c.tol = "abs" THEN <<1, 100>> ELSE IF c.tol = "pct" THEN SMul(mag2, <<1, 10000>>) ELSE Zero
+Far(c, gap2, mag2) == SLeq(Bound(c, mag2), gap2) /\ (c.tol # "zero" => gap2[1] > 0)
 Sq(q) == Mul(q, q)
 RMax3(a, b, d) == RMax(a, RMax(b, d))
 CongGap2(x, t, m) == LET r == Div(Sub(VRe(x), VRe(t)), VRe(m))
                          fl == Floor(r)
                          frac == RMin(Sub(r, <<fl, 1>>), Sub(<<fl + 1, 1>>, r))
                      IN Sq(Mul(frac, RAbs(VRe(m))))
-BetweenGap2(x, a, b) == IF Lt(VRe(b), VRe(a)) THEN <<1000000, 1>>
+BetweenGap2(x, a, b) == IF Lt(VRe(b), VRe(a)) THEN <<1000, 1>>
                         ELSE IF Lt(VRe(x), VRe(a)) THEN Sq(Sub(VRe(a), VRe(x)))
                         ELSE IF Lt(VRe(b), VRe(x)) THEN Sq(Sub(VRe(x), VRe(b))) ELSE Zero
 ScalarMag2(c, s) == RMax3(VNorm2(c.S[s]), VNorm2(c.P[s][1]), VNorm2(c.P[s][2]))
-\* squared distance between v and the circle { u t : |u| = 1 } is |v|^2 + |t|^2 - 2 |<t, v>|; it is >= b iff ...
+\* the circle { u t : |u| = 1 } lies in the span of t and on the sphere of radius |t|: the distance of v from it is at
+\* least the distance from the span and at least | |v| - |t| | >= | |v|^2 - |t|^2 | / (2 max(|v|, |t|)).  With
+\* d = | |v|^2 - |t|^2 | and mx = max(|v|^2, |t|^2) the second bound reads d^2 / (4 mx) >= Bound; it is used in the
+\* square-free sufficient forms  d >= 1 /\ d >= mx / 25  (abs)  and  d >= mx / 50  (pct).
+NormFar(c, d, mx) == CASE c.tol = "abs" -> IF d[1] <= 40000 THEN SLeq(SMul(mx, <<1, 25>>), SMul(d, d))        \* exact while it cannot overflow
+                                           ELSE SLeq(One, d) /\ SLeq(SMul(mx, <<1, 25>>), d)
+                       [] c.tol = "pct" -> d[1] > 0 /\ SLeq(SMul(mx, <<1, 50>>), d)
+                       [] OTHER -> d[1] > 0
 PhaseFar(c, v, t) ==
-  LET nv == VNorm2(v)   nt == VNorm2(t)
-      h2 == Q(GAbs2(HDot(t.ent, v.ent)), t.den * t.den * v.den * v.den)         \* |<t, v>|^2
-      a == Sub(Add(nv, nt), Bound(c, RMax(nv, nt)))
-  IN a[1] >= 0 /\ Leq(Mul(<<4, 1>>, h2), Sq(a)) /\ (Lt(Mul(<<4, 1>>, h2), Sq(Add(nv, nt))) \/ c.tol = "zero")
+  LET nv == VNorm2(v)   nt == VNorm2(t)   mx == RMax(nv, nt) IN
+  \/ Far(c, Div(Dist2ToSpan(v.ent, <<t.ent>>), <<v.den * v.den, 1>>), mx)
+  \/ NormFar(c, RAbs(Sub(nv, nt)), mx)
 FarAt(c, s) ==
   CASE c.kind = "cong" -> IF VIsReal(c.S[s]) THEN Far(c, CongGap2(c.S[s], c.P[s][1], c.P[s][2]), ScalarMag2(c, s))
                           ELSE Far(c, Sq(VIm(c.S[s])), ScalarMag2(c, s))
@@ -355,8 +377,8 @@ LawBetween(x, a, b) == /\ Leq(VRe(a), VRe(b)) => Between(a, a, b) /\ Between(b, 
                        /\ Lt(VRe(b), VRe(a)) => ~Between(x, a, b)
                        /\ Between(x, a, b) <=> (VIsReal(x) /\ BetweenGap2(x, a, b) = Zero)
 \* eigenvectors: closed under every non-zero rescaling; an eigenvector forces det(M - lam I) = 0
-CharMatrix(M, lam) == [i \in 1..M.shape[1] |-> [j \in 1..M.shape[2] |->
-                         GSub(GScale(lam.den, M.ent[(i - 1) * M.shape[2] + j]), IF i = j THEN GScale(M.den, lam.ent[1]) ELSE GZ)]]
+CharMatrix(M, lam) == TLCEval([i \in 1..M.shape[1] |-> [j \in 1..M.shape[2] |->
+                         GSub(GScale(lam.den, M.ent[(i - 1) * M.shape[2] + j]), IF i = j THEN GScale(M.den, lam.ent[1]) ELSE GZ)]])
 LawEigenScaling(M, lam, v, z, zd) == z # GZ => (Eigen(M, lam, v) <=> Eigen(M, lam, VMul(z, zd, v)))
 LawEigenCharacteristic(M, lam, v) == Eigen(M, lam, v) => GDet(CharMatrix(M, lam)) = GZ
 \* span: rank test and Gram-determinant distance agree; membership does not depend on how the space is presented
